@@ -517,6 +517,10 @@ Error RACFGBuilder::on_invoke(InvokeNode* invoke_node, RAInstBuilder& ib) noexce
   ib._clobbered[2] = Support::lsb_mask<RegMask>(_pass._phys_reg_count.get(RegGroup(2))) & ~fd.preserved_regs(RegGroup(2));
   ib._clobbered[3] = Support::lsb_mask<RegMask>(_pass._phys_reg_count.get(RegGroup(3))) & ~fd.preserved_regs(RegGroup(3));
 
+  // LR is preserved by the callee for its own caller, but the call instruction (BL|BLR) overwrites it with the
+  // return address, so a virtual register cannot stay in LR across the call.
+  ib._clobbered[0] |= Support::bit_mask<RegMask>(Gp::kIdLr);
+
   return Error::kOk;
 }
 
